@@ -1,7 +1,8 @@
 CONSTANTS
   Thresholds = {0, 1, 2, 3, 4}
-  Results = {"ok", "fail", "timeout", "late_ok", "late_fail"}
+  Results = {"ok", "fail", "timeout", "late0_ok", "late2_fail"}
   MaxLen = 7
+  WithB = TRUE
   Defects = {}
 SPECIFICATION Spec
 INVARIANT ExactOnHistory
